@@ -1,6 +1,6 @@
 (** Vocabulary of the snapshot fan-out tables that translators/snapshot.py generates
     (Gen/SnapshotTables.v).  Model only: no proofs. *)
-From Coq Require Export List String Bool.
+From Coq Require Export List String Bool Ascii NArith.
 Export ListNotations.
 
 (** the seven state-machine components behind RaftDataHandler *)
@@ -31,14 +31,28 @@ Inductive wtree :=
 | WTreeKey (name : string) (key : string)  (* a constant tree name with a constant key *)
 | WTableName.                           (* TableManager: the table's own name *)
 
-(** first matching arm; a record is described by its tree name and its key (as a string) *)
-Definition key_matches (c : key_cond) (key : string) : bool :=
-  match c with KAny => true | KIs k => String.eqb k key end.
+(** tree names and keys of records are byte strings (SnapshotRecordDto.tree: String,
+    .key: Vec<u8>); the generated tables hold the literals as Coq strings *)
+Definition bytes_of_lit (s : string) : list N := map N_of_ascii (list_ascii_of_string s).
 
-Fixpoint route (arms : list load_arm) (tree key : string) : option (comp * load_msg) :=
+Fixpoint bytes_eqb (a b : list N) : bool :=
+  match a, b with
+  | [], [] => true
+  | x :: a', y :: b' => N.eqb x y && bytes_eqb a' b'
+  | _, _ => false
+  end.
+
+(** `record.tree.as_str() == X.as_str()`; inside the T_SEQUENCE arm
+    `String::from_utf8_lossy(&record.key) == SEQ_KEY_CONFIG` — an ASCII literal equals the lossy
+    conversion exactly when the key bytes are the literal's bytes *)
+Definition key_matches (c : key_cond) (key : list N) : bool :=
+  match c with KAny => true | KIs k => bytes_eqb (bytes_of_lit k) key end.
+
+(** first matching arm; a record is described by its tree name and its key *)
+Fixpoint route (arms : list load_arm) (tree key : list N) : option (comp * load_msg) :=
   match arms with
   | [] => None
   | a :: rest =>
-      if String.eqb (a_tree a) tree && key_matches (a_key a) key
+      if bytes_eqb (bytes_of_lit (a_tree a)) tree && key_matches (a_key a) key
       then Some (a_comp a, a_msg a) else route rest tree key
   end.
